@@ -1,2 +1,212 @@
-(* further request handlers, registered by property area *)
-let install (_register : string -> (string list -> string) -> unit) = ()
+(* Request handlers around the extracted decoder model: parsing of requests and
+   canonical printing of results. The same canonical form is produced by the Go
+   harness (canon.go) for the implementation's results. *)
+module F = Fitmodel
+open Conv
+
+let buf_add = Buffer.add_string
+
+let rec show_val b (v : F.goval) =
+  match v with
+  | F.VU n -> buf_add b "u"; buf_add b (string_of_int (int_of_n n))
+  | F.VI z -> buf_add b "i"; buf_add b (string_of_int (int_of_z z))
+  | F.VF n -> buf_add b "f"; buf_add b (string_of_int (int_of_n n))
+  | F.VStr s -> buf_add b "s"; List.iter (fun x -> buf_add b (Printf.sprintf "%02x" (int_of_n x))) s
+  | F.VTime (sec, nsec, zone) ->
+      buf_add b "t";
+      buf_add b (string_of_int (int_of_z sec));
+      buf_add b ".";
+      buf_add b (string_of_int (int_of_n nsec));
+      buf_add b ".";
+      (match zone with None -> buf_add b "u" | Some o -> buf_add b (string_of_int (int_of_z o)))
+  | F.VLat z -> buf_add b "a"; buf_add b (string_of_int (int_of_z z))
+  | F.VLng z -> buf_add b "o"; buf_add b (string_of_int (int_of_z z))
+  | F.VNil -> buf_add b "n"
+  | F.VList l ->
+      buf_add b "l(";
+      List.iteri (fun i x -> if i > 0 then buf_add b ","; show_val b x) l;
+      buf_add b ")"
+  | F.VOther -> buf_add b "x"
+
+let show_msg b (m : F.msg) =
+  buf_add b (string_of_int (int_of_n m.F.m_num));
+  buf_add b "[";
+  List.iteri (fun i v -> if i > 0 then buf_add b ";"; show_val b v) m.F.m_fields;
+  buf_add b "]"
+
+let show_header b (h : F.header) =
+  buf_add b
+    (Printf.sprintf "%d,%d,%d,%d,%s,%d" (int_of_n h.F.h_size) (int_of_n h.F.h_proto) (int_of_n h.F.h_profile)
+       (int_of_n h.F.h_dsize) (hex_of_bytes h.F.h_dtype) (int_of_n h.F.h_crc))
+
+let show_file b (f : F.file) =
+  buf_add b "H";
+  show_header b f.F.f_header;
+  buf_add b ";C";
+  buf_add b (string_of_int (int_of_n f.F.f_crc));
+  buf_add b ";T";
+  (match f.F.f_inited with
+  | None -> buf_add b "-"
+  | Some ft -> (
+      match F.ft_entry ft with
+      | Some ((_, cname), _) -> buf_add b (ocaml_string cname)
+      | None -> buf_add b "?"));
+  buf_add b ";S";
+  List.iteri
+    (fun i slot ->
+      buf_add b "|";
+      buf_add b (string_of_int i);
+      buf_add b ":";
+      List.iteri (fun j m -> if j > 0 then buf_add b "&"; show_msg b m) slot)
+    f.F.f_slots;
+  buf_add b ";UM";
+  (match f.F.f_unkm with
+  | None -> buf_add b "nil"
+  | Some l ->
+      buf_add b "(";
+      List.iteri (fun i (m, c) -> if i > 0 then buf_add b ","; buf_add b (Printf.sprintf "%d:%d" (int_of_n m) (int_of_n c))) l;
+      buf_add b ")");
+  buf_add b ";UF";
+  match f.F.f_unkf with
+  | None -> buf_add b "nil"
+  | Some l ->
+      buf_add b "(";
+      List.iteri
+        (fun i ((m, fd), c) ->
+          if i > 0 then buf_add b ",";
+          buf_add b (Printf.sprintf "%d.%d:%d" (int_of_n m) (int_of_n fd) (int_of_n c)))
+        l;
+      buf_add b ")"
+
+let show_accum (a : F.accum option) =
+  match a with
+  | None -> "-"
+  | Some a -> Printf.sprintf "%d,%d,%d" (int_of_n a.F.ac_value) (int_of_n a.F.ac_last) (int_of_n a.F.ac_mask)
+
+let show_gstate (g : F.gstate) =
+  Printf.sprintf "%s/%s/%s" (show_accum g.F.g_dist) (show_accum g.F.g_cycles) (show_accum g.F.g_power)
+
+let parse_accum s =
+  if s = "-" then None
+  else
+    match String.split_on_char ',' s with
+    | [ v; l; m ] ->
+        Some { F.ac_value = n_of_int (int_of_string v); F.ac_last = n_of_int (int_of_string l); F.ac_mask = n_of_int (int_of_string m) }
+    | _ -> failwith "bad accum"
+
+let parse_gstate s =
+  match String.split_on_char '/' s with
+  | [ d; c; p ] -> { F.g_dist = parse_accum d; F.g_cycles = parse_accum c; F.g_power = parse_accum p }
+  | _ -> failwith "bad gstate"
+
+let err_name (e : F.err) =
+  match e with
+  | F.EReadSizeEOF -> "ReadSizeEOF" | F.EReadSize -> "ReadSize" | F.EHeaderSize -> "HeaderSize"
+  | F.EReadData -> "ReadData" | F.EProto -> "Proto" | F.ENotFit -> "NotFit" | F.EHdrCRC -> "HdrCRC"
+  | F.EParseData -> "ParseData" | F.EFileCRCRead -> "FileCRCRead" | F.EFileCRC -> "FileCRC"
+  | F.EIO F.IOBeyond -> "IOBeyond" | F.EIO F.IOUnexpectedEOF -> "IOUnexpectedEOF" | F.EIO F.IOFault -> "IOFault"
+  | F.ERecordHeader -> "RecordHeader" | F.ENotDef -> "NotDef" | F.ENotFileIdDef -> "NotFileIdDef"
+  | F.ENotFileIdMsg -> "NotFileIdMsg" | F.EArch -> "Arch" | F.EGlobalInvalid -> "GlobalInvalid"
+  | F.EValidate -> "Validate" | F.EMissingDef -> "MissingDef" | F.EFileType -> "FileType" | F.EParseField -> "ParseField"
+
+(* err=0 nil, 1 error, 2 IntegrityError *)
+let show_err (e : F.err option) =
+  match e with
+  | None -> "err=0:nil"
+  | Some e -> Printf.sprintf "err=%d:%s" (if F.is_integrity e then 2 else 1) (err_name e)
+
+let show_quirks q = String.concat "," (List.map (fun x -> string_of_int (int_of_n x)) q)
+
+let parse_sched s =
+  if s = "-" then [] else List.map (fun x -> nat_of_int (int_of_string x)) (String.split_on_char ',' s)
+
+let mk_reader data term ewd sched =
+  { F.rd_data = bytes_of_hex data;
+    F.rd_sched = parse_sched sched;
+    F.rd_term = (if term = "f" then F.TFault else F.TEOF);
+    F.rd_ewd = (ewd = "1");
+    F.rd_pos = F.O }
+
+let parse_opts s =
+  { F.o_logger = s.[0] = '1'; F.o_unkf = s.[1] = '1'; F.o_unkm = s.[2] = '1' }
+
+(* decode <entry> <opts> <datahex> <term e|f> <ewd 0|1> <sched|-> <gstate>
+   entry: D Decode | C DecodeChained | I CheckIntegrity(false) | J CheckIntegrity(true) | H DecodeHeader | F DecodeHeaderAndFileID *)
+let h_decode args =
+  match args with
+  | [ entry; opts; data; term; ewd; sched; g ] ->
+      let rd = mk_reader data term ewd sched in
+      let fuel = nat_of_int (List.length rd.F.rd_data + List.length rd.F.rd_sched + 16) in
+      let g = parse_gstate g in
+      let o = parse_opts opts in
+      let b = Buffer.create 4096 in
+      let show_dres (r : F.dres) =
+        buf_add b "R ";
+        buf_add b (show_err r.F.dr_err);
+        buf_add b (Printf.sprintf " pos=%d hdr=" (int_of_nat r.F.dr_rd.F.rd_pos));
+        show_header b r.F.dr_hdr;
+        buf_add b " g=";
+        buf_add b (show_gstate r.F.dr_g);
+        buf_add b " q=";
+        buf_add b (show_quirks r.F.dr_quirks);
+        buf_add b " file=";
+        match r.F.dr_file with None -> buf_add b "nil" | Some f -> show_file b f
+      in
+      let out (t : F.dres F.tout) =
+        match t with
+        | F.TDone r -> show_dres r
+        | F.TPanic w -> buf_add b (Printf.sprintf "P %d" (int_of_n w))
+        | F.TOutOfFuel -> buf_add b "X"
+      in
+      (match entry with
+      | "D" -> out (F.entry_Decode o g rd fuel)
+      | "I" -> out (F.entry_CheckIntegrity false g rd fuel)
+      | "J" -> out (F.entry_CheckIntegrity true g rd fuel)
+      | "H" -> out (F.entry_DecodeHeader g rd fuel)
+      | "F" -> out (F.entry_DecodeHeaderAndFileID g rd fuel)
+      | "C" -> (
+          match F.entry_DecodeChained o g rd fuel with
+          | F.TPanic w -> buf_add b (Printf.sprintf "P %d" (int_of_n w))
+          | F.TOutOfFuel -> buf_add b "X"
+          | F.TDone r ->
+              buf_add b "R ";
+              buf_add b (show_err r.F.cr_err);
+              buf_add b (Printf.sprintf " pos=%d" (int_of_nat r.F.cr_rd.F.rd_pos));
+              buf_add b " g=";
+              buf_add b (show_gstate r.F.cr_g);
+              buf_add b " q=";
+              buf_add b (show_quirks r.F.cr_quirks);
+              buf_add b (Printf.sprintf " files=%d" (List.length r.F.cr_files));
+              List.iter (fun f -> buf_add b " file="; show_file b f) r.F.cr_files)
+      | _ -> buf_add b "ERR entry");
+      Buffer.contents b
+  | _ -> "ERR args"
+
+(* validate <gmn> <num> <size> <btype> -> ok | err | panic *)
+let h_validate args =
+  match args with
+  | [ g; n; s; t ] -> (
+      let fd = { F.fd_num = n_of_int (int_of_string n); F.fd_size = n_of_int (int_of_string s); F.fd_btype = n_of_int (int_of_string t) } in
+      match F.validate_field_def (n_of_int (int_of_string g)) fd with
+      | F.VOk -> "ok"
+      | F.VErr -> "err"
+      | F.VPanic _ -> "panic")
+  | _ -> "ERR args"
+
+(* validate_row <gmn> <num> <btype> -> 256 chars o/e/p for sizes 0..255 *)
+let h_validate_row args =
+  match args with
+  | [ g; n; t ] ->
+      let b = Bytes.create 256 in
+      for s = 0 to 255 do
+        let fd = { F.fd_num = n_of_int (int_of_string n); F.fd_size = n_of_int s; F.fd_btype = n_of_int (int_of_string t) } in
+        Bytes.set b s
+          (match F.validate_field_def (n_of_int (int_of_string g)) fd with F.VOk -> 'o' | F.VErr -> 'e' | F.VPanic _ -> 'p')
+      done;
+      Bytes.to_string b
+  | _ -> "ERR args"
+
+let install (register : string -> (string list -> string) -> unit) =
+  register "decode" h_decode;
+  register "validate" h_validate;
+  register "validate_row" h_validate_row
